@@ -16,7 +16,7 @@ import (
 
 func init() {
 	Register(&Prop{
-		ID: "C14", Engine: "B", Quick: 20000, Thorough: 2000000, Level: "exploration",
+		ID: "C14", Engine: "B", AltEvery: 4, Quick: 20000, Thorough: 2000000, Level: "exploration",
 		Rule: "case 0 enumerates every history of length <= 6 over {append 1 byte, append 100 bytes, append nothing, chain an empty slice, chain 3 bytes, chain 5000 bytes, flush} x {sink accepts everything, sink fails once after 2 bytes, sink writes short once after 2 bytes} (exhaustive); every other case is a drawn history of up to 60 operations (appends through the Put* family, chained slices, flushes) over a sink that fails or writes short at a drawn byte and then recovers, or the path equivalence of WriteColumn/WriteBlock against EncodeColumn/EncodeBlock for generated columns and blocks; oracle = pending-bytes model: a flush delivers exactly what was appended or chained since the previous flush (a prefix of it when the sink fails) and afterwards nothing older is ever written again; evaluations = histories; distinct = distinct history digests; non-trivial = histories with at least one flush after at least two operations",
 		Run:  runC14,
 	})
